@@ -184,6 +184,39 @@ pub fn check_canonical(run: &mut Run, rng: &mut Rng, set: &[MCell], flavour: &st
     } else if got != model {
         run.violation("C10.model", case(), format!("result has {} cells, the maximal antichain covering the same region has {}", got.len(), model.len()));
     }
+    // the same set with about half of its cells written in an accepted non-canonical spelling (a stray bit the marker scan
+    // ignores), and one canonical id repeated in such a spelling: the words are the same cells, so - where the library answers -
+    // the result must be the very same canonical list (no echoed spelling, no group left unmerged, no cell twice)
+    if ids.len() <= 4096 && rng.chance(0.3) {
+        let mut ids2 = ids.clone();
+        let mut changed = 0;
+        for k in 0..ids2.len() {
+            if rng.chance(0.5) {
+                if let Some(w) = decode(ids2[k]).and_then(|c| stray_alias(rng, c)) {
+                    ids2[k] = w;
+                    changed += 1;
+                }
+            }
+        }
+        if let Some(w) = decode(ids[0]).and_then(|c| stray_alias(rng, c)) {
+            ids2.push(if ids2[0] == w { ids[0] } else { w });
+            changed += 1;
+        }
+        if changed > 0 {
+            run.count("alias_spellings.sets");
+            if let Ok(out2) = compact(&ids2) {
+                run.count("alias_spellings.answered");
+                if out2 != out {
+                    run.violation(
+                        "C10.alias_spelling",
+                        json!({"ids": ids_json(&ids2), "canonical_ids": ids_json(&ids), "flavour": flavour}),
+                        format!("compact of the same cells with {changed} of them in a non-canonical spelling returns {} ids, {} for the canonical ids; first difference at {:?}", out2.len(), out.len(), out2.iter().zip(out.iter()).position(|(a, b)| a != b)),
+                    );
+                    return;
+                }
+            }
+        }
+    }
     match compact(&out) {
         Ok(again) if again == out => {}
         Ok(again) => run.violation("C10.idempotent", case(), format!("compacting the result again changes it ({} -> {} cells)", out.len(), again.len())),
